@@ -19,8 +19,38 @@ pub mod c14;
 pub mod c15;
 pub mod c16;
 pub mod c17;
+pub mod hist;
+
+/// E5 for the properties whose op alphabets live in hist.rs: verdict ops against fresh-process baselines,
+/// value ops (C07 hashes, C16 renderings) against the first evaluation in this process
+fn explore_history(r: &Run, id: &str) {
+    use crate::history::{explore_with, Base, Mode};
+    if id == "C08" || id == "C04" {
+        return; // C08 explores its own alphabet inside c08::run; C04's entry points are C08's
+    }
+    let ops = history_ops(id);
+    if ops.is_empty() {
+        return;
+    }
+    let (mode, base) = match id {
+        "C07" | "C16" => (Mode::Strict, Base::InProcess),
+        _ => (Mode::Verdict, Base::FreshProcess),
+    };
+    r.rule("call histories: every ordered pair of ops (the property's oracle on a few plain inputs + shared context calls that fail half-way, use another format, touch look-alike values) on a brand-new thread, compared with the op evaluated with no earlier call");
+    guarded(r, || explore_with(r, id, &ops, 2, mode, base, &[]));
+}
 
 pub fn run(id: &str, tier: Tier) -> i32 {
+    let run = run_check(id, tier);
+    let run = match run {
+        Some(r) => r,
+        None => return 2,
+    };
+    explore_history(&run, id);
+    run.finish()
+}
+
+fn run_check(id: &str, tier: Tier) -> Option<Run> {
     let run = match id {
         "C01" => { let r = Run::new("C01", tier); guarded(&r, || c01::run(&r)); r }
         "C02" => { let r = Run::new("C02", tier); guarded(&r, || c02::run(&r)); r }
@@ -41,10 +71,33 @@ pub fn run(id: &str, tier: Tier) -> i32 {
         "C17" => { let r = Run::new("C17", tier); guarded(&r, || c17::run(&r)); r }
         _ => {
             eprintln!("unknown property id {id}");
-            return 2;
+            return None;
         }
     };
-    run.finish()
+    Some(run)
+}
+
+/// the call-history alphabet (E5) of a property; built the same way in every process
+pub fn history_ops(id: &str) -> Vec<crate::history::Op> {
+    match id {
+        "C01" => hist::c01_ops(),
+        "C02" => hist::c02_ops(),
+        "C03" => hist::c03_ops(),
+        "C05" => hist::c05_ops(),
+        "C06" => hist::c06_ops(),
+        "C07" => hist::c07_ops(),
+        "C08" => c08::history_ops(),
+        "C09" => hist::c09_ops(),
+        "C10" => hist::c10_ops(),
+        "C11" => hist::c11_ops(),
+        "C12" => hist::c12_ops(),
+        "C13" => hist::c13_ops(),
+        "C14" => hist::c14_ops(),
+        "C15" => hist::c15_ops(),
+        "C16" => hist::c16_ops(),
+        "C17" => hist::c17_ops(),
+        _ => vec![],
+    }
 }
 
 /// A panic that escapes every per-case guard (while building, hashing or comparing values of the
@@ -111,7 +164,11 @@ pub fn replay_case(id: &str, op: &str, case: &serde_json::Value) -> Result<(), S
     if op == "hang" {
         return Err("recorded non-termination; re-run the check to re-evaluate".into());
     }
+    if op == "call_history" {
+        return crate::history::replay(id, &history_ops(id), case);
+    }
     match (id, op) {
+        (_, "options_wf") => c12::replay_case(case),
         (_, "enum_roundtrip") => c01::replay_case(case),
         (_, "lexical_roundtrip") => c02::replay_case(case),
         (_, "components") | (_, "lexical_components") => c14::replay_case(case),
